@@ -140,8 +140,11 @@ package walletdb
 //@ iface DB.View(db, f, reset) (err)
 //@   trusted
 //@   ensures fault_reported: wfault && !old(wfault) ==> err != nil
+//@ ghost dbUpdates Int
 //@ func Update(db, f) (err)
 //@   trusted
+//@   modifies dbUpdates
+//@   ensures counted: dbUpdates == old(dbUpdates) + 1
 //@   ensures fault_reported: wfault && !old(wfault) ==> err != nil
 //@ func View(db, f) (err)
 //@   trusted
